@@ -79,6 +79,12 @@ pub struct Probes {
     pub key_send_refused: u64,
     pub keys_sent: u64,
     pub foreign_keys_used: u64,
+    pub lend_refused: u64,
+    pub lends: u64,
+    pub guard_swaps: u64,
+    pub guard_send_refused: u64,
+    pub guards_sent: u64,
+    pub foreign_guards_dropped: u64,
 }
 
 pub struct Runner<'a> {
@@ -91,6 +97,17 @@ pub struct Runner<'a> {
     pub flats: Vec<Vec<FlatLeaf>>,
     /// keys sent from thread to thread (KeyOp::Send); empty unless `ThreadKey: Send`
     pub mailbox: Mutex<Vec<Box<dyn std::any::Any + Send>>>,
+    /// `&mut member guard` lent to other threads (LendGuard); empty unless such guards are Send
+    pub lent: Mutex<Vec<LentEntry>>,
+    /// whole guards sent to other threads (Release::SendAway); empty unless they are Send
+    pub sent_guards: Mutex<Vec<(usize, Box<dyn crate::caps::Opaque + Send>)>>,
+}
+
+pub struct LentEntry {
+    pub from: usize,
+    pub ptr: usize,
+    pub tag: u8,
+    pub taken: bool,
 }
 
 struct KeyHolder {
@@ -455,6 +472,56 @@ impl<'r, 'a> St<'r, 'a> {
                 }
                 // performed by the caller of the scoped call once it has returned
                 BodyOp::EscapeData(_) => {}
+                BodyOp::LendGuard(i) | BodyOp::SwapLent(i) => {
+                    if *i >= ctx.flat.len() || emptied || ctx.acq.api.is_scoped() {
+                        continue;
+                    }
+                    // where the member guard lives, if safe code could pass `&mut` of it to another thread
+                    let mut layers = Vec::new();
+                    crate::caps::LENT.with(|l| l.set(None));
+                    crate::caps::LEND.with(|a| a.set(true));
+                    let _ = h.visit(&ctx.flat[*i].path, &mut layers);
+                    crate::caps::LEND.with(|a| a.set(false));
+                    let (ptr, tag) = match crate::caps::LENT.with(|l| l.take()) {
+                        Some(x) => x,
+                        None => {
+                            self.probe(|p| p.lend_refused += 1);
+                            continue;
+                        }
+                    };
+                    const SPINS: usize = 30;
+                    let me = self.tid;
+                    if matches!(op, BodyOp::LendGuard(_)) {
+                        self.r.lent.lock().unwrap().push(LentEntry { from: me, ptr, tag, taken: false });
+                        self.probe(|p| p.lends += 1);
+                        for _ in 0..SPINS {
+                            s.yield_point();
+                            if self.r.lent.lock().unwrap().iter().any(|e| e.from == me && e.ptr == ptr && e.taken) {
+                                break;
+                            }
+                        }
+                        // the loan ends here, used or not
+                        self.r.lent.lock().unwrap().retain(|e| !(e.from == me && e.ptr == ptr));
+                    } else {
+                        for _ in 0..SPINS {
+                            let mut done = false;
+                            {
+                                let mut mb = self.r.lent.lock().unwrap();
+                                if let Some(e) = mb.iter_mut().find(|e| !e.taken && e.from != me && e.tag == tag) {
+                                    // safety: the lender is parked inside its LendGuard op, its guard is alive
+                                    unsafe { swap_member_guards(e.ptr, ptr, tag) };
+                                    e.taken = true;
+                                    done = true;
+                                }
+                            }
+                            if done {
+                                self.probe(|p| p.guard_swaps += 1);
+                                break;
+                            }
+                            s.yield_point();
+                        }
+                    }
+                }
                 BodyOp::UseForeignKey(i) => {
                     if *i >= ctx.flat.len() {
                         continue;
@@ -824,7 +891,7 @@ impl<'r, 'a> Th<'r, 'a> {
                     Ok(g) => {
                         self.st.check_try_outcome(ctx, &q, true);
                         self.st.after_acquire(ctx, &rec);
-                        self.body_and_release(ctx, g, T::unlock);
+                        self.body_and_release(ctx, g, T::unlock, T::send_guard);
                         self.st.check_try_restored(ctx, &q, "after the guard was released");
                     }
                     Err(k) => {
@@ -841,7 +908,7 @@ impl<'r, 'a> Th<'r, 'a> {
                     Ok(g) => {
                         self.st.check_try_outcome(ctx, &q, true);
                         self.st.after_acquire(ctx, &rec);
-                        self.body_and_release(ctx, g, T::unlock_read);
+                        self.body_and_release(ctx, g, T::unlock_read, T::send_read_guard);
                         self.st.check_try_restored(ctx, &q, "after the guard was released");
                     }
                     Err(k) => {
@@ -996,10 +1063,10 @@ impl<'r, 'a> Th<'r, 'a> {
         }
     }
 
-    fn body_and_release<G: Held>(&mut self, ctx: &Ctx, mut g: G, unlock: impl FnOnce(G) -> ThreadKey) {
+    fn body_and_release<'g, G: Held + 'g>(&mut self, ctx: &Ctx, mut g: G, unlock: impl FnOnce(G) -> ThreadKey, send: impl FnOnce(G) -> Result<Box<dyn crate::caps::Opaque + Send + 'g>, G>) {
         if ctx.acq.release != Release::UnlockInDrop {
             self.st.body(&self.cell, &mut g, ctx);
-            self.release(ctx, g, unlock);
+            self.release(ctx, g, unlock, send);
             return;
         }
         // the guard lives inside a user value whose destructor hands it to unlock(): that runs
@@ -1025,8 +1092,31 @@ impl<'r, 'a> Th<'r, 'a> {
         }
     }
 
-    fn release<G>(&mut self, ctx: &Ctx, g: G, unlock: impl FnOnce(G) -> ThreadKey) {
+    fn release<'g, G: 'g>(&mut self, ctx: &Ctx, g: G, unlock: impl FnOnce(G) -> ThreadKey, send: impl FnOnce(G) -> Result<Box<dyn crate::caps::Opaque + Send + 'g>, G>) {
         let s = self.st.s();
+        if ctx.acq.release == Release::SendAway {
+            match send(g) {
+                Ok(b) => {
+                    // the guard borrows the target, which outlives the run's threads
+                    let b: Box<dyn crate::caps::Opaque + Send + 'static> = unsafe { std::mem::transmute::<Box<dyn crate::caps::Opaque + Send + 'g>, Box<dyn crate::caps::Opaque + Send + 'static>>(b) };
+                    self.st.r.sent_guards.lock().unwrap().push((self.st.tid, b));
+                    self.st.probe(|p| p.guards_sent += 1);
+                    // this thread's key travels inside the guard
+                }
+                Err(g) => {
+                    self.st.probe(|p| p.guard_send_refused += 1);
+                    s.api_begin(ApiKind::Release, false);
+                    drop(g);
+                    self.kh.alive = false;
+                    let _ = s.api_end();
+                    let held = s.held();
+                    if !held.is_empty() {
+                        s.report(Clause::KeyBackWhileHolding, format!("guard of {:?} on target {} was dropped but the caller still holds {:?}", ctx.acq.api, ctx.acq.target, held));
+                    }
+                }
+            }
+            return;
+        }
         s.api_begin(ApiKind::Release, false);
         match ctx.acq.release {
             Release::Drop => {
@@ -1041,7 +1131,7 @@ impl<'r, 'a> Th<'r, 'a> {
                 std::mem::forget(g);
                 self.kh.leaked = true;
             }
-            Release::UnlockInDrop => unreachable!("happysim: handled by body_and_release"),
+            Release::UnlockInDrop | Release::SendAway => unreachable!("happysim: handled elsewhere"),
         }
         let _rec = s.api_end();
         if ctx.acq.release != Release::Forget {
@@ -1226,6 +1316,20 @@ impl<'r, 'a> Th<'r, 'a> {
             Step::GateWait(g) => s.gate_wait(*g),
             Step::Yield => s.yield_point(),
             Step::WaitBlocked(t, l) => s.wait_blocked(*t, *l),
+            Step::DropForeignGuard => {
+                let me = self.st.tid;
+                let got = {
+                    let mut sg = self.st.r.sent_guards.lock().unwrap();
+                    let pos = sg.iter().position(|(from, _)| *from != me);
+                    pos.map(|p| sg.remove(p))
+                };
+                if let Some((_, g)) = got {
+                    self.st.probe(|p| p.foreign_guards_dropped += 1);
+                    s.api_begin(ApiKind::Release, false);
+                    drop(g);
+                    let _ = s.api_end();
+                }
+            }
             Step::Destroy(t, d) => self.destroy(*t, *d),
             Step::InUnwind(_) => unreachable!("happysim: InUnwind is handled by run_step"),
             Step::Key(k) => match k {
@@ -1622,8 +1726,9 @@ impl<'r, 'a> Th<'r, 'a> {
                     unsafe { (*self.0).run_step(self.1, self.2) }
                 }
             }
-            let me: *mut Th<'r, 'a> = self;
             self.st.in_unwind = true;
+            // taken after the last direct use of `self` before the frame below is gone
+            let me: *mut Th<'r, 'a> = self;
             let _ = catch_unwind(AssertUnwindSafe(|| {
                 let _d = RunOnDrop(me, i, &**inner);
                 resume_unwind(Box::new(Injected));
@@ -1940,6 +2045,8 @@ pub fn run_scenario(scn: &Scenario) -> RunResult {
         probes: Mutex::new(Probes::default()),
         flats,
         mailbox: Mutex::new(Vec::new()),
+        lent: Mutex::new(Vec::new()),
+        sent_guards: Mutex::new(Vec::new()),
     };
     std::thread::scope(|sc| {
         for tid in 0..nthreads {
@@ -1987,6 +2094,10 @@ pub fn run_scenario(scn: &Scenario) -> RunResult {
         }
     }
     let probes = runner.probes.lock().unwrap().clone();
+    // guards that were sent away and never dropped stay leaked (only a broken tree sends any)
+    for (_, g) in runner.sent_guards.lock().unwrap().drain(..) {
+        std::mem::forget(g);
+    }
     drop(runner);
     world.teardown();
     {
